@@ -197,72 +197,86 @@ def _same_cases(a: str, b: str) -> bool:
 
 
 def fmt_rule(ctx: Ctx) -> None:
+    """The n-bit formatter, for n in {12, 16, 32}.  The function's result is taken in normal form (locals substituted,
+    if/else merged into conditional values); the unsigned and signed values are then *evaluated* in the bit-slice
+    domain (sa.absrun's evaluator: the sign test `u >= 2**(n-1)` is the top bit of the n-bit field, so
+    `u - 2**n if .. else u` evaluates to the signed n-bit field), and the two format strings are folded."""
+    from ..absrun import AbsRun
+    from ..flowspec import merged_result
+    from ..parsershape import normal_flow
     m = ctx.model
-    r = ctx.rule("R17.fmt", "n-bit formatter constants for n in {12,16,32}")
+    r = ctx.rule("R17.fmt", "n-bit formatter: masked value, signed value, digit counts for n in {12,16,32} (normal form + bit-slice evaluation)")
     mod = m.module("util.integer_representations")
     f = mod.functions.get("get_n_bit_representations")
     hx = mod.functions.get("to_hex_str")
     gp = mod.functions.get("groupify_string")
     if None in (f, hx, gp):
         raise AnalysisError("anchor vanished: formatter functions")
-    assigns = {n.targets[0].id: n.value for n in f.node.body if isinstance(n, ast.Assign) and isinstance(n.targets[0], ast.Name)}
     num, nn = f.params[0], f.params[1]
-    for need in ("unsigned_number", "signed_number", "bin_string", "hex_string"):
-        if need not in assigns:
-            raise AnalysisError(f"R17.fmt: local `{need}` vanished from get_n_bit_representations")
-    hx_assigns = {n.targets[0].id: n.value for n in hx.node.body if isinstance(n, ast.Assign) and isinstance(n.targets[0], ast.Name)}
+    fl = normal_flow(m, f)
+    res = merged_result(fl)
+    if len(res) != 4:
+        r.check(False, "result-tuple", f.loc(), f"the formatter does not return a 4-tuple (bin, unsigned, hex, signed): {[fl.show(x) for x in res]}")
+        return
+
+    def arg(call: ast.AST, pos: int, name: str):
+        if not isinstance(call, ast.Call):
+            return None
+        for k in call.keywords:
+            if k.arg == name:
+                return k.value
+        return call.args[pos] if len(call.args) > pos else None
+
+    def is_call(e: ast.AST, fn: str) -> bool:
+        return isinstance(e, ast.Call) and isinstance(e.func, ast.Name) and e.func.id == fn
+
+    e_bin, e_u, e_hex, e_s = res
+    ok = is_call(e_bin, "groupify_string") and is_call(e_hex, "groupify_string") and is_call(e_u, "str") and is_call(e_s, "str") \
+        and const_int(arg(e_bin, 1, "group_size")) == 8 and const_int(arg(e_hex, 1, "group_size")) == 2
+    r.check(ok, "result-tuple", f.loc(), "result is not (bin grouped by 8, str(unsigned), hex grouped by 2, str(signed)): "
+            + ", ".join(fl.show(x)[:80] for x in res))
+    if not ok:
+        return
+    u_expr, s_expr = e_u.args[0], e_s.args[0]
+    bin_str, hex_str = arg(e_bin, 0, "string"), arg(e_hex, 0, "string")
+    ucanon = fl.canon(u_expr)
+    ok = isinstance(bin_str, ast.Call) and isinstance(bin_str.func, ast.Attribute) and bin_str.func.attr == "format" \
+        and len(bin_str.args) == 1 and fl.canon(bin_str.args[0]) == ucanon
+    r.check(ok, "bin_string", f.loc(), "binary digits are not rendered from the masked value")
+    ok_hex = is_call(hex_str, "to_hex_str") and fl.canon(arg(hex_str, 0, hx.params[0])) == ucanon and fl.canon(arg(hex_str, 1, hx.params[1])) == "P1"
+    r.check(ok_hex, "hex_string", f.loc(), "hex digits are not rendered from the masked value at width n")
+    hfl = normal_flow(m, hx)
+    hres = merged_result(hfl)
+    ok_h = len(hres) == 1 and isinstance(hres[0], ast.Call) and isinstance(hres[0].func, ast.Attribute) and hres[0].func.attr == "format" \
+        and len(hres[0].args) == 1 and hfl.canon(hres[0].args[0]) == "P0"
+    r.check(ok_h, "to_hex_str|return", hx.loc(), "to_hex_str does not format its number")
     for n in WIDTHS:
-        fold = Folder(m, mod, None, {nn: Val(n)})
-        arms = [assigns["unsigned_number"]]
-        while any(isinstance(a, ast.IfExp) for a in arms):  # a conditional reduction must reduce correctly on every arm
-            arms = [b for a in arms for b in ((a.body, a.orelse) if isinstance(a, ast.IfExp) else (a,))]
-        for arm in arms:
-            try:
-                u = Evaluator({num: Form.var("x")}, fold).ev(arm)
-            except Inconclusive as exc:
-                raise AnalysisError(f"R17.fmt: unsigned_number outside the bit-slice domain: {exc}")
-            r.check(u == Form.field("x", 0, n), f"n={n}|mask", f.loc(), f"for n={n} the value is reduced to {u.describe()} (`{ast.unparse(arm)}`) "
-                    f"instead of its low {n} bits (two's complement for negative and over-wide inputs)")
-        sg = assigns["signed_number"]
-        ok = False
-        if isinstance(sg, ast.IfExp) and isinstance(sg.test, ast.Compare) and len(sg.test.ops) == 1:
-            try:
-                thr = fold.fold(sg.test.comparators[0])
-                op = type(sg.test.ops[0])
-                left_ok = ast.unparse(sg.test.left) == "unsigned_number"
-                thr_ok = (op is ast.GtE and thr == 2 ** (n - 1)) or (op is ast.Gt and thr == 2 ** (n - 1) - 1)
-                lf = linform(sg.body)
-                off = None
-                if isinstance(sg.body, ast.BinOp) and isinstance(sg.body.op, ast.Sub) and ast.unparse(sg.body.left) == "unsigned_number":
-                    off = fold.fold(sg.body.right)
-                ok = left_ok and thr_ok and off == 2 ** n and ast.unparse(sg.orelse) == "unsigned_number"
-            except Unknown:
-                ok = False
-        r.check(ok, f"n={n}|sign", f.loc(), f"for n={n} the signed value is not `u - 2^{n} if u >= 2^{n - 1} else u`")
-        # binary field width
+        run = AbsRun(m, f, {num: Form.var("x")}, {nn: n})
         try:
-            bf = fold.fold(assigns["bin_format"]) if "bin_format" in assigns else None
+            u = run.ev.ev(u_expr)
+        except Inconclusive as exc:
+            raise AnalysisError(f"R17.fmt: the unsigned value is outside the bit-slice domain: {exc}")
+        r.check(u == Form.field("x", 0, n), f"n={n}|mask", f.loc(), f"for n={n} the value is reduced to {u.describe()} (`{fl.show(u_expr)}`) "
+                f"instead of its low {n} bits (two's complement for negative and over-wide inputs)")
+        try:
+            sg = run.ev.ev(s_expr)
+            sdesc = sg.describe()
+            oks = sg == Form.field("x", 0, n, signed=True)
+        except Inconclusive as exc:
+            sdesc, oks = f"not decidable ({exc})", False
+        r.check(oks, f"n={n}|sign", f.loc(), f"for n={n} the signed value is {sdesc}; it must be the n-bit two's complement reading "
+                f"`u - 2^{n} if u >= 2^{n - 1} else u`")
+        fold = Folder(m, mod, None, {nn: Val(n)})
+        try:
+            bf = fold.fold(bin_str.func.value) if isinstance(bin_str, ast.Call) and isinstance(bin_str.func, ast.Attribute) else None
         except Unknown:
             bf = None
         r.check(bf == "{:0" + str(n) + "b}", f"n={n}|bin-width", f.loc(), f"binary format for n={n} is {bf!r}")
-        # hex field width (folded inside to_hex_str with its own parameter names)
         try:
-            hf = Folder(m, mod, None, {hx.params[1]: Val(n)}).fold(hx_assigns["hex_format"]) if "hex_format" in hx_assigns else None
+            hf = Folder(m, mod, None, {hx.params[1]: Val(n)}).fold(hres[0].func.value) if ok_h else None
         except Unknown:
             hf = None
         r.check(hf == "{:0" + str(n // 4) + "X}", f"n={n}|hex-width", hx.loc(), f"hex format for n={n} is {hf!r}, expected {n // 4} upper-case digits")
-    r.check(ast.unparse(assigns["bin_string"]) == "bin_format.format(unsigned_number)", "bin_string", f.loc(), "binary digits are not rendered from the masked value")
-    r.check(ast.unparse(assigns["hex_string"]) == f"to_hex_str(unsigned_number, {nn})", "hex_string", f.loc(), "hex digits are not rendered from the masked value at width n")
-    rets = [x for x in walk_no_nested(hx.node) if isinstance(x, ast.Return)]
-    r.check(len(rets) == 1 and ast.unparse(rets[0].value) == f"hex_format.format({hx.params[0]})", "to_hex_str|return", hx.loc(), "to_hex_str does not format its number")
-    rets = [x for x in walk_no_nested(f.node) if isinstance(x, ast.Return)]
-    ok = False
-    if len(rets) == 1 and isinstance(rets[0].value, ast.Tuple) and len(rets[0].value.elts) == 4:
-        e = [" ".join(ast.unparse(x).split()) for x in rets[0].value.elts]
-        ok = e == ["groupify_string(string=bin_string, group_size=8)", "str(unsigned_number)",
-                   "groupify_string(string=hex_string, group_size=2)", "str(signed_number)"] or \
-            e == ["groupify_string(bin_string, 8)", "str(unsigned_number)", "groupify_string(hex_string, 2)", "str(signed_number)"]
-    r.check(ok, "result-tuple", f.loc(), "result is not (bin grouped by 8, unsigned, hex grouped by 2, signed)")
     # grouping goes right to left
     gtxt = " ".join(ast.unparse(gp.node).split())
     ok = "reversed_string = string[::-1]" in gtxt and "return grouped_string[::-1]" in gtxt and \
